@@ -13,6 +13,14 @@ CLAIMED = {
    text="Same engine as C01 on StableGraph, model keyed by stable index with vacancies: new indices are checked for legality (never a live index) and adopted; node_count/edge_count/node_bound/edge_bound and all iterators must describe the model's live set; failing try_* calls (missing, vacant or out-of-range endpoints, biased to land right after a removal so the free lists are non-empty; index-limit exhaustion in u8 runs) must leave the complete observation byte-identical; any panic on a valid call is a violation and the batch is run in two build profiles (release, and release with debug assertions + overflow checks) because the property says 'debug or release'. Exploration.",
    note="Trusts the reference model; all iteration orders are compared as multisets (StableGraph documents none).",
    technique=HIST),
+ "C03": dict(engine="history:graphmap", design="DESIGN.md §2 C03",
+   text="Seeded search over GraphMap histories (directed and undirected, i32 keys drawn from a small universe so removed keys are re-added often, seeded good / four-bucket / constant BuildHasher through the existing S type parameter) in lock-step with a BTreeSet/BTreeMap simple-graph model: return values of add_edge/remove_*/Build routes, and after every step contains_*, edge_weight, Index, neighbors, neighbors_directed, edges, edges_directed (orientation rules), nodes, all_edges (both ways), counts, the to_index/from_index bijection, plus into_graph/from_graph and FromElements round trips. Faults: absent nodes/edges on every query and removal, IndexMut on a missing edge (documented panic), degenerate hashers. Exploration.",
+   note="Trusts the BTree model; iteration orders are compared as multisets (documented as arbitrary).",
+   technique=HIST),
+ "C06": dict(engine="step-invariant:visit", design="DESIGN.md §2 C06",
+   text="Step invariant evaluated on the states reached by the seeded mutation histories of the structure engines (so states with vacant node and edge indices, swap-renumbered graphs, parallel edges and self-loops are the norm): through the visit traits only, node_identifiers/node_references/node_count/to_index/from_index/node_bound, edge_references/edge_count, neighbors/edges/neighbors_directed/edges_directed per node and is_adjacent for every ordered pair of live nodes must describe one graph; the same battery is then run on &G, Reversed, UndirectedAdaptor, NodeFiltered, EdgeFiltered, Frozen and 11 depth-2 stackings against the base view transformed the obvious way. The oracle is self-consistency of the views (ground set = the structure's own node_identifiers + edge_references), independent of any reference model. Exploration.",
+   note="UndirectedAdaptor is applied to directed bases only (over an undirected base it doubles every edge by construction) and the multiplicity with which it lists a self-loop (1 or 2) is left open; a run whose structure disagrees with the generation-driving model is discarded and counted, not reported here.",
+   technique="deterministic simulation: invariant checked after every step of seeded mutation histories (cross-view consistency)"),
  "C19": dict(engine="history:unionfind", design="DESIGN.md §2 C19",
    text="Seeded search over UnionFind call histories (all four index widths, u8 filled to its 256-element capacity) run in lock-step against a label-array partition model; after every call the full equivalence relation, the stability of class representatives (find / find_mut / try_* / into_labeling agree and compression changes nothing) and len are compared; out-of-range arguments and absurd try_reserve sizes are injected as faults and must give exactly the documented Err/panic with the partition unchanged. Exploration, not proof: a clean batch means no sampled history disagreed.",
    note="Trusts the label-array model (about 20 lines) and Vec's try_reserve returning Err for a request above isize::MAX. new_set beyond the index type's capacity is outside the property's domain and is not issued.",
